@@ -3,8 +3,12 @@ use crate::engine::{self, Prop, Tier};
 use std::path::Path;
 
 pub mod c01;
+pub mod c02;
+pub mod c07;
 pub mod c09;
 pub mod c11;
+pub mod c14;
+pub mod c17;
 pub mod c18;
 
 macro_rules! registry {
@@ -33,7 +37,11 @@ macro_rules! registry {
 
 registry! {
     "C01" => c01::C01,
+    "C02" => c02::C02,
+    "C07" => c07::C07,
     "C09" => c09::C09,
     "C11" => c11::C11,
+    "C14" => c14::C14,
+    "C17" => c17::C17,
     "C18" => c18::C18,
 }
